@@ -835,7 +835,17 @@ class BaseIOStream:
             self._read_from_buffer(pos)
             return
         self._check_closed()
-        pos = self._read_to_buffer_loop()
+        future = self._read_future
+        try:
+            pos = self._read_to_buffer_loop()
+        except OSError:
+            # _read_to_buffer closed the stream before raising, and close()
+            # completes a pending read that the buffered data can satisfy.
+            # In that case deliver the data (the error is in self.error)
+            # instead of raising and losing it.
+            if future is not None and future.done() and future.exception() is None:
+                return
+            raise
         if pos is not None:
             self._read_from_buffer(pos)
             return
